@@ -172,6 +172,11 @@ def run(rep):
             sels.append("external")
         wb, _ = choicegen.build(cfg, sels)
         wbs.append(({"choices_cfg": cfg, "sels": sels}, _typed_variant(wb, rnd) if i % 2 else wb))
+    # cell text containing Unicode line / paragraph separators and NEL (legal XML characters; not row boundaries in any container)
+    wbs.append(({"unicode_line_separators": True}, {"sheets": [
+        {"name": "survey", "header": ["type", "name", "label", "hint"], "rows": [["text", "q1", "line\u2028sep", "para\u2029sep"], ["text", "q2", "nel\u0085here", None],
+                                                                                 ["select_one L", "q3", "Q3", "fs\u001c?".replace("\u001c?", "x")]]},
+        {"name": "choices", "header": ["list_name", "name", "label"], "rows": [["L", "a", "c\u2028l"], ["L", "b", "B"]]}]}))
     mjobs = [{"tag": t, "wb": wb, "matrix": matrix} for t, wb in wbs]
     mouts = conv.map_cases(_run_matrix, mjobs, chunksize=1)
     for o in mouts:
